@@ -72,3 +72,31 @@ Proof.
       rewrite (find_node_in tbl Hs n); [reflexivity|]. apply (Permutation_in _ (Permutation_sym Hp)), Hn. }
     apply sorted_desc_of_before, Hb.
 Qed.
+
+(* ------------------------------------------------------------------ the stdout checker accepts the model's stdout *)
+Definition small_figures (tbl : list node) : Prop :=
+  forall n f, In n tbl -> f <> F_call -> fld_value f n < 1440000000000.
+
+Lemma ok_show_model f n : (f <> F_call -> fld_value f n < 1440000000000) -> ok_show f n (show f n) = true.
+Proof.
+  intro H. destruct f; cbn [ok_show show]; try (apply fmt_time_ok, H; discriminate).
+  apply N.eqb_refl.
+Qed.
+
+Lemma ok_cells_model fs n : (forall f, f <> F_call -> fld_value f n < 1440000000000) ->
+  ok_cells fs n (map (fun f => show f n) fs) = true.
+Proof.
+  intro H. induction fs as [|f t IH]; cbn [map ok_cells]; [reflexivity|].
+  rewrite ok_show_model by (apply H). exact IH.
+Qed.
+
+Theorem stdout_checker_accepts_model ks fs tbl : names_sorted tbl -> small_figures tbl ->
+  ok_stdout ks fs tbl (stdout_model ks fs tbl) = true.
+Proof.
+  intros Hs Hsm. unfold ok_stdout, stdout_model. apply andb_true_iff. split.
+  - apply forallb_forall. intros l Hl. apply in_map_iff in Hl. destruct Hl as (n & <- & Hn). cbn [fst snd].
+    destruct (sort_nodes_sorted ks tbl Hs) as [_ Hp].
+    assert (In n tbl) as Hin by (apply (Permutation_in _ (Permutation_sym Hp)), Hn).
+    rewrite (find_node_in tbl Hs n Hin). apply ok_cells_model. intros f Hf. apply Hsm; assumption.
+  - rewrite map_map. cbn [fst]. apply sort_checker_accepts_model, Hs.
+Qed.
